@@ -278,6 +278,13 @@ def moves_rule(chk, r2="C06.R2", r4="C06.R4"):
                     prs = profs(e_, kwn, p, h.mi, fn) if handrules.is_op_call(e_) else []
                     fallback = bool(prs) and all(pr.first == f"{x}.dequantize()" and pr.passes("dtype") == "dtype" and pr.forwards_rest() and not pr.override for pr in prs)
                     given, _ = entails(conds, lambda v: not v[A], [A])
+                    va = fn.args.vararg.arg if fn.args.vararg else None
+                    positional = va is not None and any(p.holds(t_) is True for t_ in (f"len({va}) > 0", f"len({va}) != 0", f"len({va}) >= 1")) and handrules.is_op_call(e_) \
+                        and any(isinstance(a_, ast.Starred) and U(a_.value) == va for a_ in e_.args)
+                    if positional and prs and all(pr.first == f"{x}.dequantize()" and pr.forwards_rest() and not pr.override and (pr.passes("dtype") == "dtype" or p.holds("dtype is None") is True) for pr in prs):
+                        # the positional overloads of aten.to (seen undecomposed in inference mode): everything is forwarded to the op on the dequantized values
+                        chk.ok(r4, psite, f"QBytes {h.name}: the positional overloads of the move are applied to the dequantized values (`{U(e_)[:60]}`)")
+                        continue
                     if fallback and given:
                         chk.ok(r4, psite, f"QBytes {h.name}: a move to a dtype the scale cannot take converts the dequantized values (`{U(e_)[:60]}`)")
                     else:
